@@ -70,6 +70,8 @@ def hull(c):
         return (None if c["lb"]["k"] != "V" else big_to_int(c["lb"]["v"]), None if c["ub"]["k"] != "V" else big_to_int(c["ub"]["v"]))
     if op in ("ext", "except"):
         return hull(c["a"])
+    if op == "allexcept":
+        return None
     a, b = hull(c["a"]), hull(c["b"])
     if op == "union":
         if a is None or b is None:
@@ -100,6 +102,8 @@ def sat(c, x):
         return sat(c["a"], x) and sat(c["b"], x)
     if op == "except":
         return sat(c["a"], x) and not sat(c["b"], x)
+    if op == "allexcept":
+        return not sat(c["a"], x)
     return True
 
 
@@ -154,7 +158,7 @@ def _int_constrained_open_ended(t, v):
 
 def _constraint_has_except(M, t):
     for key in ("c", "size"):
-        if isinstance(t.get(key), dict) and "op" in t[key] and has_op(t[key], "except"):
+        if isinstance(t.get(key), dict) and "op" in t[key] and (has_op(t[key], "except") or has_op(t[key], "allexcept")):
             return True
     return False
 
